@@ -28,6 +28,15 @@ def _run_job(args):
         return res
     except Exception as e:  # checker error
         from pyvc.values import Unsupported
+        from pyvc.interp import PyExc
+        if isinstance(e, PyExc):
+            # the code under contract raised a Python exception on an input that satisfies the harness preconditions and nothing caught it:
+            # that is a failed no-raise obligation of the job, not a failure of the checker
+            pid = modname.rsplit('.', 1)[-1]
+            ob = {'name': f'{pid}/{jobname}/no-raise.{e.cls}', 'kind': 'no-raise', 'status': 'refuted', 'backend': 'pyvc-exec', 'seconds': 0.0,
+                  'model': {'raised': f'{e.cls}: {e.msg}', 'line': getattr(e, 'lineno', None)},
+                  'note': 'uncaught exception from the executed repository code on an input admitted by the harness', 'line': getattr(e, 'lineno', None)}
+            return {'job': jobname, 'obligations': [ob], 'functions': [], 'wall_s': round(time.time() - t0, 3)}
         return {'job': jobname, 'error': f'{type(e).__name__}: {e}', 'traceback': traceback.format_exc(),
                 'unsupported': isinstance(e, Unsupported), 'wall_s': round(time.time() - t0, 3),
                 'obligations': [], 'functions': []}
